@@ -9,6 +9,7 @@ import (
 	_ "fxmc/props/c05"
 	_ "fxmc/props/c06"
 	_ "fxmc/props/c07"
+	_ "fxmc/props/c08"
 	_ "fxmc/props/c09"
 	_ "fxmc/props/c10"
 	_ "fxmc/props/c11"
